@@ -30,6 +30,9 @@ pub struct Script {
   pub actions: Vec<Action>,
   pub end_in_same_drain: bool,
   pub real_sleep: bool,
+  // (index of a TimedOut action, milliseconds): that poll blocks this long whatever timeout was
+  // asked for - the process was stopped or the machine suspended
+  pub stall: Option<(usize, u64)>,
 }
 
 impl Script {
@@ -38,6 +41,7 @@ impl Script {
       "kb_events": self.kb_events.iter().map(ev_text).collect::<Vec<_>>(),
       "end_in_same_drain": self.end_in_same_drain,
       "real_sleep": self.real_sleep,
+      "stall": self.stall.map(|(i, ms)| json!([i, ms])),
       "actions": self.actions.iter().map(|a| match a {
         Action::Arrive { kb, tablet, tablet_first, mid, spurious_kb } => json!({"arrive": {"kb": kb, "tablet": tablet, "tablet_first": tablet_first, "mid": mid, "spurious_kb": spurious_kb}}),
         Action::TimedOut => json!("timed_out"),
@@ -65,7 +69,7 @@ impl Script {
         return Err(format!("bad action {}", a));
       }
     }
-    Ok(Script { kb_events, actions, end_in_same_drain: v.get("end_in_same_drain").and_then(|x| x.as_bool()).unwrap_or(false), real_sleep: v.get("real_sleep").and_then(|x| x.as_bool()).unwrap_or(false) })
+    Ok(Script { kb_events, actions, end_in_same_drain: v.get("end_in_same_drain").and_then(|x| x.as_bool()).unwrap_or(false), real_sleep: v.get("real_sleep").and_then(|x| x.as_bool()).unwrap_or(false), stall: v.get("stall").and_then(|x| x.as_array()).and_then(|a| Some((a.get(0)?.as_u64()? as usize, a.get(1)?.as_u64()?))) })
   }
 }
 
@@ -217,6 +221,11 @@ impl ScriptedDriver for Driver {
       self.next_action += 1;
       match a {
         Action::TimedOut => {
+          if let Some((idx, ms)) = self.script.stall {
+            if idx == self.next_action - 1 {
+              std::thread::sleep(Duration::from_millis(ms));
+            }
+          }
           if self.script.real_sleep {
             if let Some(t) = timeout {
               std::thread::sleep(t.min(Duration::from_millis(20)));
@@ -396,7 +405,7 @@ pub fn gen_script(src: &mut Src, kb_events: Vec<Event>, o: &SchedOpts, real_slee
     actions.push(Action::Arrive { kb: 0, tablet: vec![src.chance(50)], tablet_first: true, mid: vec![], spurious_kb: false });
   }
   let end_in_same_drain = src.chance(40);
-  Script { kb_events, actions, end_in_same_drain, real_sleep }
+  Script { kb_events, actions, end_in_same_drain, real_sleep, stall: None }
 }
 
 pub fn run_loop(layout: &Layout, script: &Script, fail_at: Option<usize>) -> (Result<(), String>, Driver) {
